@@ -163,8 +163,9 @@ Qed.
 Theorem obs_hard_ok_sound : forall maxsize committed admitted would o,
     obs_hard_ok maxsize committed admitted would o = true <->
     NoDup (concat (o_pend o)) /\
-    (o_sync o = true -> forall id, In id (concat (o_pend o)) -> ~ In id committed) /\
-    (o_sync o = true -> o_replay o = (-1)%Z) /\
+    (o_esync o = true -> o_sync o = true) /\
+    (o_esync o = true -> forall id, In id (concat (o_pend o)) -> ~ In id committed) /\
+    (o_esync o = true -> o_replay o = (-1)%Z) /\
     total o <= maxsize + o_nsp o /\
     ~ (admitted = true /\ would = 0).
 Proof.
@@ -172,17 +173,100 @@ Proof.
   rewrite !andb_true_iff, nodupb_spec, !orb_true_iff, !negb_true_iff, N.leb_le, Z.eqb_eq.
   rewrite forallb_forall, andb_false_iff, N.eqb_neq.
   split.
-  - intros [[[[H1 H2] H3] H4] H5]. repeat split; auto.
+  - intros [[[[[H1 H0] H2] H3] H4] H5]. repeat split; auto.
+    + intros Hs. destruct H0 as [H0|H0]; [congruence | assumption].
     + intros Hs id Hin Hc. destruct H2 as [H2|H2]; [congruence|].
       specialize (H2 _ Hin). apply negb_true_iff in H2. apply memb_spec in Hc. congruence.
     + intros Hs. destruct H3 as [H3|H3]; [congruence | assumption].
     + intros [Ha Hw]. destruct H5 as [H5|H5]; congruence.
-  - intros [H1 [H2 [H3 [H4 H5]]]]. repeat split; auto.
-    + destruct (o_sync o); [right | left; reflexivity].
+  - intros [H1 [H0 [H2 [H3 [H4 H5]]]]]. repeat split; auto.
+    + destruct (o_esync o); [right; auto | left; reflexivity].
+    + destruct (o_esync o); [right | left; reflexivity].
       intros id Hin. apply negb_true_iff. destruct (memb id committed) eqn:E; [| reflexivity].
       apply memb_spec in E. exfalso. exact (H2 eq_refl _ Hin E).
-    + destruct (o_sync o); [right; auto | left; reflexivity].
+    + destruct (o_esync o); [right; auto | left; reflexivity].
     + destruct admitted; [| left; reflexivity]. right. intro Hw. apply H5. auto.
+Qed.
+
+(* ---------- how the pending list may change across one call ---------- *)
+Inductive Subseq {A : Type} : list A -> list A -> Prop :=
+| sub_nil : forall l, Subseq [] l
+| sub_take : forall x a b, Subseq a b -> Subseq (x :: a) (x :: b)
+| sub_skip : forall x a b, Subseq a b -> Subseq a (x :: b).
+
+Lemma list_eqb_N_spec : forall a b : list N, list_eqb N.eqb a b = true <-> a = b.
+Proof.
+  induction a as [|x a IH]; destruct b as [|y b]; cbn [list_eqb]; try (split; [discriminate | discriminate]).
+  - split; reflexivity.
+  - rewrite andb_true_iff, N.eqb_eq, IH. split; [intros [-> ->]; reflexivity | intros H; inversion H; auto].
+Qed.
+
+Lemma groups_eqb_spec : forall a b, groups_eqb a b = true <-> a = b.
+Proof.
+  unfold groups_eqb.
+  induction a as [|x a IH]; destruct b as [|y b]; cbn [list_eqb]; try (split; [discriminate | discriminate]).
+  - split; reflexivity.
+  - rewrite andb_true_iff, list_eqb_N_spec, IH. split; [intros [-> ->]; reflexivity | intros H; inversion H; auto].
+Qed.
+
+Lemma is_subseq_tail : forall b x a, is_subseq (x :: a) b = true -> is_subseq a b = true.
+Proof.
+  induction b as [|y b IH]; intros x a H; cbn [is_subseq] in H; [discriminate|].
+  destruct (list_eqb N.eqb x y) eqn:E.
+  - destruct a as [|z a']; [reflexivity|]. cbn [is_subseq].
+    destruct (list_eqb N.eqb z y); [eapply IH; eauto | exact H].
+  - pose proof (IH _ _ H) as H1. destruct a as [|z a']; [reflexivity|]. cbn [is_subseq].
+    destruct (list_eqb N.eqb z y); [exact (IH _ _ H1) | exact H1].
+Qed.
+
+Lemma is_subseq_spec : forall a b, is_subseq a b = true <-> Subseq a b.
+Proof.
+  intros a b. split.
+  - revert a. induction b as [|y b IH]; intros a H.
+    + destruct a; [constructor | discriminate].
+    + destruct a as [|x a]; [constructor|]. cbn [is_subseq] in H.
+      destruct (list_eqb N.eqb x y) eqn:E.
+      * apply list_eqb_N_spec in E. subst. apply sub_take. auto.
+      * apply sub_skip. auto.
+  - intros H. induction H as [l | x a b H IH | x a b H IH].
+    + destruct l; reflexivity.
+    + cbn [is_subseq]. assert (E : list_eqb N.eqb x x = true) by (apply list_eqb_N_spec; reflexivity).
+      rewrite E. exact IH.
+    + destruct a as [|z a]; [reflexivity|]. cbn [is_subseq].
+      destruct (list_eqb N.eqb z x); [eapply is_subseq_tail; eauto | exact IH].
+Qed.
+
+Theorem obs_trans_ok_sound : forall maxsize opk prev gids spsingle admitted o,
+    obs_trans_ok maxsize opk prev gids spsingle admitted o = true <->
+    (opk = 1 -> admitted = true ->
+       o_pend o = prev ++ [gids] /\ (maxsize < total o -> spsingle = true)) /\
+    (opk = 1 -> admitted = false -> o_pend o = prev) /\
+    (opk = 2 -> Subseq (o_pend o) prev).
+Proof.
+  intros maxsize opk prev gids spsingle admitted o. unfold obs_trans_ok.
+  destruct (opk =? 1) eqn:E1.
+  - apply N.eqb_eq in E1. subst opk. destruct admitted.
+    + rewrite andb_true_iff, groups_eqb_spec, orb_true_iff, N.leb_le. split.
+      * intros [H1 H2]. split; [| split].
+        -- intros _ _. split; [exact H1|]. intros Hlt. destruct H2 as [H2|H2]; [lia | exact H2].
+        -- intros _ Hf. discriminate.
+        -- intros Hf. discriminate.
+      * intros [H1 _]. destruct (H1 eq_refl eq_refl) as [Ha Hb]. split; [exact Ha|].
+        destruct (N.le_gt_cases (total o) maxsize) as [Hle|Hgt]; [left; exact Hle | right; exact (Hb Hgt)].
+    + rewrite groups_eqb_spec. split.
+      * intros H. split; [| split].
+        -- intros _ Hf. discriminate.
+        -- intros _ _. exact H.
+        -- intros Hf. discriminate.
+      * intros [_ [H _]]. exact (H eq_refl eq_refl).
+  - apply N.eqb_neq in E1. destruct (opk =? 2) eqn:E2.
+    + apply N.eqb_eq in E2. subst opk. rewrite is_subseq_spec. split.
+      * intros H. split; [| split].
+        -- intros Hf. discriminate.
+        -- intros Hf. discriminate.
+        -- intros _. exact H.
+      * intros [_ [_ H]]. exact (H eq_refl).
+    + apply N.eqb_neq in E2. split; [| reflexivity]. intros _. split; [| split]; intros; congruence.
 Qed.
 
 Theorem overflow_class_sound : forall maxsize o,
